@@ -227,6 +227,8 @@ class SymReal:
             return res.item()
         return res
 
+    __iter__ = None  # like numpy scalars: not iterable (``a, b = radius`` must raise TypeError)
+
     def item(self):
         return self
 
